@@ -18,6 +18,9 @@ import (
 
 // ---- genesis specification (for history-based properties) ---------------------------
 
+// AbsentAmount as a LimitSpec amount: the genesis entry carries no amount field.
+const AbsentAmount = "absent"
+
 type LimitSpec struct {
 	Denom  string `json:"denom"`
 	Amount string `json:"amount"`
@@ -105,6 +108,12 @@ func (g *GenSpec) ModuleGenesis() *types.GenesisState {
 		gs.SignatureThreshold = nil
 	}
 	for _, l := range g.Limits {
+		if l.Amount == AbsentAmount {
+			// the entry names a denom and no amount (the file says {"denom": "..."}): validation accepts it, and the
+			// limit that gets stored is the zero amount
+			gs.PerMessageBurnLimitList = append(gs.PerMessageBurnLimitList, types.PerMessageBurnLimit{Denom: l.Denom})
+			continue
+		}
 		gs.PerMessageBurnLimitList = append(gs.PerMessageBurnLimitList, types.PerMessageBurnLimit{Denom: l.Denom, Amount: Int(Big(l.Amount))})
 	}
 	for _, p := range g.Pairs {
@@ -120,7 +129,17 @@ func (g *GenSpec) ModuleGenesis() *types.GenesisState {
 }
 
 func (g *GenSpec) ChainGenesis() chain.Genesis {
-	return chain.Genesis{Cctp: chain.Codec().MustMarshalJSON(g.ModuleGenesis()), Ledger: g.Ledger}
+	raw := chain.Codec().MustMarshalJSON(g.ModuleGenesis())
+	absent := map[string]bool{}
+	for _, l := range g.Limits {
+		if l.Amount == AbsentAmount {
+			absent[l.Denom] = true
+		}
+	}
+	if len(absent) > 0 {
+		raw = StripLimitAmounts(raw, func(d, _ string) bool { return absent[d] })
+	}
+	return chain.Genesis{Cctp: raw, Ledger: g.Ledger}
 }
 
 // ---- reference model -----------------------------------------------------------------
@@ -194,6 +213,10 @@ func NewModel(g *GenSpec) *Model {
 		m.Atts[a] = true
 	}
 	for _, l := range g.Limits {
+		if l.Amount == AbsentAmount {
+			m.Limits[l.Denom] = new(big.Int)
+			continue
+		}
 		m.Limits[l.Denom] = Big(l.Amount)
 	}
 	for _, p := range g.Pairs {
